@@ -76,6 +76,7 @@ def main(ck, tier, w):
         jobs.append((coin, -1))         # text payloads, every callback with -vv
         jobs.append((coin, -2))         # template-shaped scripts around data pushes of any length
         jobs.append((coin, -3))         # pushes announcing up to 4 GiB, under an address-space limit
+        jobs.append((coin, -4))         # hostile coinbase input scripts under --verify, header versions >= 2
     texts = text_scripts()
     looks = []
     lr = random.Random('%d-c14-looks' % seed)
@@ -125,13 +126,28 @@ def main(ck, tier, w):
                             'outs': [{'val': 7, 'spk': s}, {'val': 8, 'spk': btc.p2pkh(r0.randbytes(20))}, {'val': 9, 'spk': u}]
                                     + [{'val': 10 + n, 'spk': x} for n, x in enumerate(same)], 'lock': h})
             return txs
-        blocks = chains.std_chain(4, coin, txs_fn=txs_fn)
+        first = 0
+        if k == -4:
+            # --verify on, header versions >= 2, hostile bytes as the COINBASE input script (truncated pushes of every width at offset 0,
+            # a lone opcode, nothing at all): the height BIP34 puts there is none of a parser's business
+            first = 1
+            cbsigs = [b'\x03\x01', b'\x05', b'\x08\xff\xff', b'\x01', b'\x4c', b'\x4d\x01', b'\x4e\xff\xff\xff\xff', b'', b'\x00', b'\x51', b'\x02\x00', b'\x09' + b'z' * 3]
+            blocks, prev = [], b'\0' * 32
+            for h in range(4):
+                txs = [btc.coinbase(h, btc.p2pkh(r0.randbytes(20))),
+                       {'ver': 2, 'ins': [{'txid': r0.randbytes(32), 'idx': 0, 'sig': cbsigs[(h * 3 + 1) % len(cbsigs)], 'seq': 1}], 'outs': [{'val': 5, 'spk': btc.p2pkh(r0.randbytes(20))}], 'lock': 0}]
+                txs[0]['ins'][0]['sig'] = cbsigs[(h * 3 + seed) % len(cbsigs)] if h else txs[0]['ins'][0]['sig']
+                blocks.append(datadir.mk_block(prev, txs, t=1300000000 + h, ver=([2, 3, 0x20000000, 4] if coin not in ('namecoin', 'dogecoin') else [2, 3, 4, 0x100])[h], nonce=h))      # (below the AuxPoW activation versions)
+                prev = blocks[-1]['hash']
+        else:
+            blocks = chains.std_chain(4, coin, txs_fn=txs_fn)
         d = datadir.simple_dir(w.sub('dd'), blocks, coin).write()
-        chain = list(enumerate(blocks))
+        chain = list(enumerate(blocks))[first:]
         probs = []
         last = None
         for cb in cbs:
             r = run.run_parser(d, cb, dump=w.mk('out') if cb in cbs[:3] else None, coin=coin, timeout=120, verbose=(k + len(cb)) % 3 if k != -1 else 2,
+                               start=first or None, verify=(k == -4),
                                aslimit=3 * 2 ** 30 if k == -3 else None, threads=2 if k == -3 else None)
             last = r
             if r.rc != 0:
@@ -140,13 +156,13 @@ def main(ck, tier, w):
             if cb == 'csvdump':
                 exp, _ = ref.csv_expected(chain, coin)
                 for f in exp:
-                    if r.files.get('%s-0-3.csv' % f) != exp[f]:
+                    if r.files.get('%s-%d-3.csv' % (f, first)) != exp[f]:
                         probs.append('csvdump %s differs from the reference model of the chain' % f)
             elif cb == 'unspentcsvdump':
-                if set(r.files.get('unspent-0-3.csv', b'').decode('utf-8', 'replace').splitlines()[1:]) != ref.unspent_rows(ref.utxo_expected(chain, coin)):
+                if set(r.files.get('unspent-%d-3.csv' % first, b'').decode('utf-8', 'replace').splitlines()[1:]) != ref.unspent_rows(ref.utxo_expected(chain, coin)):
                     probs.append('unspent rows differ from the reference model')
             elif cb == 'balances':
-                if set(r.files.get('balances-0-3.csv', b'').decode('utf-8', 'replace').splitlines()[1:]) != ref.balances_rows(ref.utxo_expected(chain, coin)):
+                if set(r.files.get('balances-%d-3.csv' % first, b'').decode('utf-8', 'replace').splitlines()[1:]) != ref.balances_rows(ref.utxo_expected(chain, coin)):
                     probs.append('balances rows differ from the reference model')
             elif cb == 'simplestats':
                 p = c15.compare(chains.parse_stats(r.stdout), c15.expected_from_ref(chain, coin))
